@@ -230,7 +230,7 @@ func vhSpilledTree(e *vhIndexEnv, nl int) int {
 	return e.newPage(&indexInterior{cells: []indexInteriorCell{{left: left, payload: sep}}, rightmost: right})
 }
 
-//verif:prop C12,C20
+//verif:prop C12,C20,C02
 //verif:bounds 3 (thorough: 4) index entries whose records spill to one overflow page each, as one leaf or as interior entry + left leaf + right leaf; operations ScanEq / ScanMin / ScanRange / Scan with symbolic int64 keys; the failing page read k = any ordinal (one-shot I/O error)
 func VH_C12_index_overflow() {
 	e := &vhIndexEnv{vhTreeEnv: vhNewEnv()}
